@@ -28,7 +28,7 @@ Shapes == {<<1, 1, 1>>, <<2, 2, 2>>, <<2, 1, 1>>, <<1, 1, 4>>, <<3, 2, 1>>}
 Axes == {<<1, 2>>, <<2, 3>>, <<3, 1>>}
 BiCase(p, f, sh, ax) == LET c == [kind |-> "biphasic", K0 |-> p[1][1], G0 |-> p[1][2], Ki |-> p[2][1], Gi |-> p[2][2], f |-> f,
                                    shape |-> sh, na |-> ax[1], nb |-> ax[2]] IN
-                        c @@ [m |-> [i \in 1..4 |-> Biphasic(c)[i][2]]]
+                        c @@ [m |-> [i \in 1..4 |-> IF BiphasicOn(c)[i] THEN Biphasic(c)[i][2] ELSE 0]]
 BiPairs == IF Thorough THEN Pairs ELSE {p \in Pairs : p[1][1] # 4 /\ p[2][2] # 3} \cup {<<<<4, 3>>, <<4, 3>>>>}
 BiCases == {BiCase(p, f, sh, <<1, 2>>) : p \in BiPairs, f \in {0, 1, 2, 4, 7, 8}, sh \in Shapes}
            \cup {BiCase(p, 2, sh, ax) : p \in {<<<<1, 1>>, <<10, 6>>>>, <<<<10, 6>>, <<1, 3>>>>}, sh \in Shapes, ax \in Axes}
@@ -72,6 +72,7 @@ ASSUME /\ \E c \in BoundsCases : c.mK[2] > 0 /\ c.mG[2] > 0 /\ c.d = 2
        /\ \E c \in BoundsCases : Len(c.K) = 5 /\ ~OnePhase(c.K, c)
        /\ \E c \in BoundsCases : Len(c.K) = 3 /\ ~ExtremesPresent(c)
        /\ \E c \in BiCases : c.f = 0 /\ ~SamePhases2(c)
+       /\ \E c \in BiCases : c.f = 7 /\ DiluteAdmissible(c) /\ c.Ki < c.K0
        /\ \E c \in MicroCases : c.m[1] > 0 /\ Len(c.K) = 2
 ASSUME ndJsonSerialize(IOEnv.OUT, Number(Cases))
 ASSUME PrintT(<<"GEN", Cardinality(BoundsCases), Cardinality(BiCases), Cardinality(MicroCases), Cardinality(ECases)>>)
